@@ -31,7 +31,7 @@ def parseGroup (t : String) : Option Group :=
   | [label, hash] =>
     let parts := label.splitOn "."
     let gid := if parts.length ≤ 1 then label else ".".intercalate parts.dropLast
-    some ⟨gid, hash⟩
+    (fromHexAux hash.toList).map fun h => ⟨gid, h⟩
   | _ => none
 
 def parseDisk (t : String) : Option (Option DiskEntry) :=
@@ -53,7 +53,7 @@ def refName (own : Id) (gen : Nat) : String := s!"{own}#{gen}"
 
 def showTabs (s : State) : String :=
   let ps := s.procs.map fun (id, p) =>
-    s!"{id}>{refName id p.gen}:{match p.group with | some g => runtok g.hash | none => "-"}"
+    s!"{id}>{refName id p.gen}:{match p.group with | some g => runtok (hexStr g.hash) | none => "-"}"
   let hs := s.hashes.map fun (k, id) => s!"{k}>{runtok id}"
   let ts := s.http.map fun (k, r) => s!"{k}>{refName r.id r.gen}"
   s!"procs={bracket ps} hashes={bracket hs} http={bracket ts}"
